@@ -251,6 +251,10 @@ def check_cooc(case):
     if s == "exc":
         if isinstance(out, ValueError) and "Token dictionary is empty" in str(out) and mask is None:
             r.label("empty-vocabulary")
+            if any(v == "either" for v in status.values()):
+                # a frequency tie leaves the eligible set itself ambiguous (and with it the top-k cut): not judged
+                r.label("freq-tie")
+                return r
             if must and not (prune.get("max_unique_tokens") is not None):
                 r.fail("spurious-empty", site, "ValueError(empty) although %r meet every constraint" % sorted(must, key=repr)[:5])
             elif must:
